@@ -15,3 +15,5 @@ package gitobject
 //@   pure
 //@   requires key != nil
 //@   ensures err == nil <==> gitValid(key.KeyID, payload, signature)
+//@   # A-errors: dependencies never answer with the policy package's "conditions unmet" sentinel
+//@   ensures !errIs(err, policy.ErrVerifierConditionsUnmet)
